@@ -2238,6 +2238,11 @@ where
 
         // Shuffled retries (total iterations: attempts shuffled).
         for attempt in 1..=attempts.get() {
+            #[cfg(delaunay_verif)]
+            {
+                crate::verif::tick::tick("bulk.shuffle_attempt");
+                crate::verif::probe::hit("bulk_shuffle_retry");
+            }
             let mut shuffled = vertices.to_vec();
 
             let mut attempt_seed =
@@ -2402,6 +2407,11 @@ where
 
         // Shuffled retries (total iterations: attempts shuffled).
         for attempt in 1..=attempts.get() {
+            #[cfg(delaunay_verif)]
+            {
+                crate::verif::tick::tick("bulk.shuffle_attempt");
+                crate::verif::probe::hit("bulk_shuffle_retry");
+            }
             let mut shuffled = vertices.to_vec();
 
             let mut attempt_seed =
@@ -3995,6 +4005,10 @@ where
         let mut last_error: Option<String> = None;
 
         for attempt in 0..HEURISTIC_REBUILD_ATTEMPTS {
+            #[cfg(delaunay_verif)]
+            if attempt >= crate::verif::knob::get("rebuild.attempts", HEURISTIC_REBUILD_ATTEMPTS) {
+                break;
+            }
             let seeds = if attempt == 0 {
                 base_seeds
             } else {
@@ -4025,6 +4039,16 @@ where
 
             let rebuild_attempt = (|| {
                 let _guard = HeuristicRebuildRecursionGuard::enter();
+                #[cfg(delaunay_verif)]
+                {
+                    crate::verif::tick::tick("rebuild.attempt");
+                    crate::verif::probe::hit("heuristic_rebuild_attempt");
+                    if crate::verif::fail::hit("dt.rebuild.attempt") {
+                        return Err(DelaunayRepairError::HeuristicRebuildFailed {
+                            message: "verif: injected rebuild attempt failure".to_string(),
+                        });
+                    }
+                }
 
                 // Shuffle vertices for this attempt.
                 let mut vertices = base_vertices.clone();
@@ -4933,6 +4957,19 @@ where
                 let (tds, kernel) = (&mut self.tri.tds, &self.tri.kernel);
                 repair_delaunay_with_flips_k2_k3(tds, kernel, seed_ref, topology).map(|_| ())
             };
+            #[cfg(delaunay_verif)]
+            let repair_result = if crate::verif::fail::hit("dt.insert.repair.postcondition") {
+                Err(DelaunayRepairError::PostconditionFailed {
+                    message: "verif: injected repair failure after insertion".to_string(),
+                })
+            } else if crate::verif::fail::hit("dt.insert.repair.flip_error") {
+                Err(DelaunayRepairError::Flip(FlipError::TdsMutation {
+                    message: "verif: injected flip failure during repair after insertion"
+                        .to_string(),
+                }))
+            } else {
+                repair_result
+            };
 
             match repair_result {
                 Ok(()) => {}
@@ -4970,6 +5007,17 @@ where
         // introduce PL-manifold violations (e.g., disconnected ridge links). Catch those
         // locally and surface an insertion error so the outer transactional guard can roll
         // back the insertion.
+        #[cfg(delaunay_verif)]
+        if crate::verif::fail::hit("dt.insert.ridge_links") {
+            return Err(InsertionError::TopologyValidationFailed {
+                message: "Topology invalid after Delaunay repair (verif: injected)".to_string(),
+                source: Box::new(TriangulationValidationError::Tds(
+                    TdsValidationError::InconsistentDataStructure {
+                        message: "verif: injected ridge-link failure".to_string(),
+                    },
+                )),
+            });
+        }
         if topology.requires_ridge_links() {
             let local_cells: Vec<CellKey> = self.tri.adjacent_cells(vertex_key).collect();
             if !local_cells.is_empty()
@@ -5007,6 +5055,18 @@ where
                     source: Box::new(source),
                 }
             })?;
+        #[cfg(delaunay_verif)]
+        if crate::verif::fail::hit("dt.insert.orient") {
+            return Err(InsertionError::TopologyValidationFailed {
+                message: "Geometric orientation invalid after Delaunay repair (verif: injected)"
+                    .to_string(),
+                source: Box::new(TriangulationValidationError::Tds(
+                    TdsValidationError::InconsistentDataStructure {
+                        message: "verif: injected orientation failure".to_string(),
+                    },
+                )),
+            });
+        }
         self.tri
             .validate_geometric_cell_orientation()
             .map_err(|err| InsertionError::TopologyValidationFailed {
@@ -5030,6 +5090,12 @@ where
             return Ok(());
         }
 
+        #[cfg(delaunay_verif)]
+        if crate::verif::fail::hit("dt.insert.check") {
+            return Err(InsertionError::DelaunayValidationFailed {
+                message: "verif: injected Delaunay check failure".to_string(),
+            });
+        }
         self.is_valid()
             .map_err(|e| InsertionError::DelaunayValidationFailed {
                 message: e.to_string(),
@@ -5138,6 +5204,14 @@ where
         let topology = self.tri.topology_guarantee();
         if self.should_run_delaunay_repair_for(topology, 0) {
             let seed_ref = seed_cells.as_deref();
+            #[cfg(delaunay_verif)]
+            if crate::verif::fail::hit("dt.remove.repair") {
+                return Err(TdsValidationError::InconsistentDataStructure {
+                    message: "Delaunay repair failed after vertex removal: verif: injected"
+                        .to_string(),
+                }
+                .into());
+            }
             let (tds, kernel) = (&mut self.tri.tds, &self.tri.kernel);
             repair_delaunay_with_flips_k2_k3(tds, kernel, seed_ref, topology).map_err(|e| {
                 TdsValidationError::InconsistentDataStructure {
